@@ -832,8 +832,12 @@ func newHandlerCallMap(
 ) *handlerCall {
 	//
 
-	isFinal := strings.HasSuffix(methodName, SuffixState) ||
-		strings.HasSuffix(methodName, SuffixEnd)
+	// final or negotiation is decided by the phase, not by the name (states can
+	// be named FooEnd / FooState)
+	isFinal := false
+	if tx := m.t.Load(); tx != nil {
+		isFinal = tx.latestHandlerIsFinal
+	}
 
 	if isFinal {
 		if _, ok := h.finals[methodName]; !ok {
